@@ -1,7 +1,8 @@
 CONSTANTS
   Sigmas <- SmallSigmas
   Labels = {n1, n2}
-  Procs = {p1, p2}
+  Procs = {p1}
+  Confs = {cdef, calt}
   Seeds = {s0, s1}
   Hists = {h1, h2}
   Vias = {"dict", "json", "code", "results"}
